@@ -7,7 +7,12 @@ from excel2pycl.src.translators.abstract_translator import AbstractTranslator
 class IfsControlConstructionTokenTranslator(AbstractTranslator):
     @classmethod
     def translate(cls, token: IfsControlConstructionToken, excel: Excel, context: Context) -> str:
+        from excel2pycl.src.exceptions import E2PyclParserException
         from excel2pycl.src.translators.expression_token_translator import ExpressionTokenTranslator
+
+        if len(token.expressions) % 2:
+            # a condition without a value would only fail when the generated class is evaluated (IndexError)
+            raise E2PyclParserException('IFS takes pairs of a condition and a value')
 
         # Каждое условие и значение - отдельная lambda: _ifs вычисляет их лениво, по порядку
         lazy_list = '[' + ','.join(
